@@ -130,6 +130,34 @@ def _factors(item):
                     res["group_sum_checks"] += 1
                     if not np.allclose(got, np.array(want), rtol=1e-9, atol=1e-9):
                         viol(f"{names[u]}:group_sum", f"{names[u]} is not the {lvl}-sum of {src}")
+    # probe columns supplied by the user in each unit: all 12 conversions as wired by the graph factory
+    for u in "ymwd":
+        probe = df.copy()
+        vals = np.round(np.abs(df["bruttolohn_m"].to_numpy()) + 100.0 + np.arange(len(df)), 2)
+        probe[f"vf_probe_{u}"] = vals
+        hv = 100.0 + 3.5 * df["hh_id"].to_numpy()
+        probe[f"vf_probe_{u}_hh"] = hv
+        tg = [f"vf_probe_{v}" for v in "ymwd" if v != u] + [f"vf_probe_{v}_hh" for v in "ymwd" if v != u]
+        try:
+            o2, miss = _request_all(env, probe, params, functions, tg)
+        except Exception as e:  # noqa: BLE001
+            viol(f"probe:{u}:exception", f"user column vf_probe_{u}: requesting {tg} raises {type(e).__name__}: {str(e)[:150]}")
+            continue
+        for v in "ymwd":
+            if v == u or f"vf_probe_{v}" not in o2.columns:
+                continue
+            res["variants"] += 1
+            got = o2[f"vf_probe_{v}"].to_numpy().astype(float)
+            want = vals * N[u] / N[v]  # x_v = x_u * N(u) / N(v), N = units per year
+            if not np.all(np.abs(got - want) <= 8 * EPS * np.maximum(np.abs(got), np.abs(want))):
+                i = int(np.argmax(np.abs(got - want)))
+                viol(f"{u}_to_{v}:wiring", f"user column vf_probe_{u}={vals[i]!r}: derived vf_probe_{v}={got[i]!r}, expected {want[i]!r}")
+            if f"vf_probe_{v}_hh" in o2.columns:
+                res["variants"] += 1
+                goth = o2[f"vf_probe_{v}_hh"].to_numpy().astype(float)
+                wanth = hv * N[u] / N[v]
+                if not np.all(np.abs(goth - wanth) <= 8 * EPS * np.maximum(np.abs(goth), np.abs(wanth))):
+                    viol(f"{u}_to_{v}:wiring_group_level", f"user column vf_probe_{u}_hh: derived vf_probe_{v}_hh differs from the factor")
     res["sample"] = dict(date=item["date"], population=popgen.describe(df), names=res["names"][:10])
     return res
 
@@ -173,7 +201,7 @@ def _supply(item):
             try:
                 with warnings.catch_warnings():
                     warnings.simplefilter("ignore")
-                    out = env.compute_taxes_and_transfers(data, params, functions, targets=[t for t in nodes if t != new])
+                    out = env.compute_taxes_and_transfers(data, params, functions, targets=[*[t for t in nodes if t != new], c])
             except Exception as e:  # noqa: BLE001
                 viol(f"supply:{c}:exception", f"supplying {new} instead of the input {c} raises {type(e).__name__}: {str(e)[:200]}")
                 continue
@@ -181,6 +209,14 @@ def _supply(item):
             res["supplied"].append((c, new))
             exact = bool(np.all((vals * (N[u] / N[u0])) == df[c].to_numpy())) and u in "ym" and u0 in "ym"
             res["exact_runs"] += int(exact)
+            # the original input is now a derived node: it must come back (conversion u -> u0)
+            back = out[c].to_numpy().astype(float)
+            orig = df[c].to_numpy().astype(float)
+            if not np.all(np.abs(back - orig) <= 1e-9 * np.maximum(1.0, np.abs(orig))):
+                i = int(np.argmax(np.abs(back - orig)))
+                viol(f"{u}_to_{u0}:wiring", f"{c} re-derived from the supplied {new} is {back[i]!r}, the value supplied was equivalent to {orig[i]!r} "
+                                            f"(conversion {u} -> {u0} as wired in the dependency graph)")
+                continue
             for t in nodes:
                 if t not in out.columns:
                     continue
